@@ -14,7 +14,7 @@ from sa.report import Run
 from sa.term import Rat
 from sa.units import NO_UNIT, Unit
 
-from .common import eq_term, events, returns, show
+from .common import private_helper, eq_term, events, returns, show
 
 
 class PlateauModel(Model):
@@ -114,10 +114,7 @@ def run(tier: str) -> Run:
     repo = Repo()
     run.analysed = {'modules': ['chopper.filtering'], 'digest': repo.digest.hexdigest()}
     run.trusted = ['sa/scipp_model.py', 'scipp group/bins semantics (not analysed)']
-    try:
-        fi = repo.func('chopper.filtering', '_derive')
-    except AnalysisError:
-        fi = None  # a private helper: the slope is decided inside find_plateaus below (R1 public instances, R2)
+    fi = private_helper(repo, 'chopper.filtering', '_derive', ['da'])  # else: the slope is decided inside find_plateaus below (R1 public instances, R2)
 
     r1 = run.rule('R1', 'slope term and dtype discipline for float / int / datetime coordinates: find_plateaus groups by the documented slope without lossy '
                         'conversions (the slope helper is also decided on its own where it exists)', 3)
@@ -252,10 +249,7 @@ def run(tier: str) -> Run:
 
     r3 = run.rule('R3', 'collapse: low = bins.min, high = next representable above bins.max (float: nextafter; integer / datetime: one unit)', 4)
     cfi = repo.func('chopper.filtering', 'collapse_plateaus')
-    try:
-        nfi = repo.func('chopper.filtering', '_next_highest')
-    except AnalysisError:
-        nfi = None  # decided through collapse_plateaus above for all four dtypes
+    nfi = private_helper(repo, 'chopper.filtering', '_next_highest', ['x'])  # else: decided through collapse_plateaus for all four dtypes
     for edt in ('float64', 'float32', 'int64', 'datetime64'):
         T.reset()
         pm = PlateauModel()
